@@ -7,6 +7,7 @@ rsync -a --exclude .git --exclude replays /verif/ $V/
 cd $V
 if [ "$kind" = seed ]; then
   p=$(basename $(dirname $d)); /venv/bin/python harness/seed_eval.py $p $d "$@" 2>&1 | tail -1 > /dev/shm/$n.result
+  [ -f $V/$d/meta.json ] && cp $V/$d/meta.json /verif/$d/meta.json
 else
   p=$(basename $(dirname $d)); /venv/bin/python harness/harmless_eval.py $p $d "$@" 2>&1 | tail -1 > /dev/shm/$n.result
 fi
